@@ -770,18 +770,39 @@ FAMILIES = [
 
 def capture_in_body(gb: GB, rng: Rng, desc: dict) -> None:
     """Generic perturbation for EVERY family: some intermediate value is read only inside an If body
-    (depth 1 or 2). A rewrite that removes or re-lays-out that value must notice the capture."""
+    (depth 1 or 2), by both branches, only by `then_branch` or only by `else_branch` (the predicate
+    selects a reading branch). A rewrite that removes or re-lays-out that value must notice the capture
+    in EVERY graph-valued attribute."""
     produced = [o for n in gb.nodes for o in n.output if o and o not in gb.outputs]
     if not produced:
         return
     m = rng.choice(produced)
-    cond = gb.const(np.asarray(True), name=gb.fresh("capcond"))
+    which = rng.choice(["both", "both", "then_only", "else_only"])
+    # the non-reading branch must return a tensor of the same rank (ONNX merges the branch types): take the
+    # rank from shape inference on the graph built so far; unknown rank → both branches read
+    rank = None
+    try:
+        for vi in gb.model().graph.value_info:
+            if vi.name == m and vi.type.tensor_type.HasField("shape"):
+                rank = len(vi.type.tensor_type.shape.dim)
+    except Exception:  # noqa: BLE001
+        rank = None
+    if rank is None:
+        which = "both"
+    cond = gb.const(np.asarray(which != "else_only"), name=gb.fresh("capcond"))
+
+    def reading(name):
+        return helper.make_graph([helper.make_node("Cast", [m], [name], to=TensorProto.FLOAT)], name + "_g", [],
+                                 [helper.make_empty_tensor_value_info(name)])
+
+    def silent(name):
+        c = helper.make_tensor(name + "_c", TensorProto.FLOAT, [1] * (rank or 0), [0.25])
+        return helper.make_graph([helper.make_node("Constant", [], [name], value=c)], name + "_g", [],
+                                 [helper.make_empty_tensor_value_info(name)])
 
     def leafs(tag):
-        t = helper.make_graph([helper.make_node("Identity", [m], [f"{tag}_t"])], f"{tag}_then", [],
-                              [helper.make_empty_tensor_value_info(f"{tag}_t")])
-        e = helper.make_graph([helper.make_node("Identity", [m], [f"{tag}_e"])], f"{tag}_else", [],
-                              [helper.make_empty_tensor_value_info(f"{tag}_e")])
+        t = (reading if which in ("both", "then_only") else silent)(f"{tag}_t")
+        e = (reading if which in ("both", "else_only") else silent)(f"{tag}_e")
         return t, e
 
     depth = 2 if rng.chance(0.4) else 1
@@ -795,6 +816,8 @@ def capture_in_body(gb: GB, rng: Rng, desc: dict) -> None:
         e = helper.make_graph([inner2], f"{tag}_oe", [], [helper.make_empty_tensor_value_info(f"{tag}_i2")])
     gb.out(gb.node("If", [cond], then_branch=t, else_branch=e))
     desc.setdefault("guards", []).append(f"generic_capture_depth{depth}")
+    if which != "both":
+        desc["guards"].append(f"capture_{which}")
 
 
 def generate(rng: Rng):
